@@ -27,4 +27,9 @@ def run(rep, fb, tier):
     from ..rules import lints3 as _l3
     _l3.rule_union_alternatives(rep, fb)
     _l3.rule_forth_source_literals(rep, fb)
+    from ..rules import binding as _bd
+    _bd.rule_binding_narrowing(rep, fb)
+    _bd.rule_exception_unthrown(rep, fb)
+    _bd.rule_binding_isinstance_order(rep, fb)
+    _l3.rule_index_form_arms(rep, fb)
     rep.units = fb.units
